@@ -24,6 +24,22 @@ ASSUMPTIONS = ['zero-length moves are not generated', 'virtual time: computation
                'may carry the vector from before or after it', 'packets decoded with the layouts checked by C08 (hover type 10: vx, vy, yawrate, z)']
 
 
+class _BoomKI(KeyboardInterrupt):
+    """Ctrl-C in the flight script"""
+
+
+def _mkboom(case, msg):
+    # exceptions come in all shapes: one argument, none (bare raise of a class, Ctrl-C), several (OSError(errno, text))
+    kind = case.get('exc_kind', 'one')
+    if kind == 'none':
+        return _Boom()
+    if kind == 'two':
+        return _Boom(5, msg)
+    if kind == 'ki':
+        return _BoomKI()
+    return _Boom(msg)
+
+
 class _Boom(Exception):
     pass
 
@@ -168,7 +184,7 @@ def run_mc(case):
             def body():
                 for i, st_ in enumerate(steps):
                     if case['raise_at'] == i:
-                        raise _Boom('step %d' % i)
+                        raise _mkboom(case, 'step %d' % i)
                     if st_['op'] == 'wait':
                         s.sleep(st_['t'])
                         continue
@@ -180,7 +196,7 @@ def run_mc(case):
                         durations.append((st_['op'], dur, s.now - t0))
                         cmds.append((s.now, (0, 0, 0, 0)))
                 if case['raise_at'] is not None and case['raise_at'] >= len(steps):
-                    raise _Boom('end')
+                    raise _mkboom(case, 'end')
             try:
                 if case['context']:
                     with mc:
@@ -192,7 +208,7 @@ def run_mc(case):
                         body()
                     finally:
                         mc.land()
-            except _Boom:
+            except (_Boom, _BoomKI):
                 pass
             except Exception as e:  # noqa
                 raised = e
@@ -338,7 +354,7 @@ def run_hl(case):
             def body():
                 for i, st_ in enumerate(steps):
                     if case['raise_at'] == i:
-                        raise _Boom('x')
+                        raise _mkboom(case, 'x')
                     k = st_['op']
                     v = st_.get('v')
                     vel = v if v is not None else model['dv']
@@ -401,7 +417,7 @@ def run_hl(case):
                         body()
                     finally:
                         pc.land()
-            except _Boom:
+            except (_Boom, _BoomKI):
                 pass
             except Exception as e:  # noqa
                 raised = e
@@ -505,7 +521,7 @@ def mc_case(draw):
         pos = draw(st.integers(0, len(steps)))
         steps[pos:pos] = extra
     return {'height': draw(st.sampled_from([0.3, 0.5, 1.0, 0.25])), 'context': draw(st.booleans()), 'steps': steps,
-            'raise_at': draw(st.one_of(st.none(), st.none(), st.integers(0, len(steps)))), 'schedule': draw(_sched),
+            'raise_at': draw(st.one_of(st.none(), st.none(), st.integers(0, len(steps)))), 'exc_kind': draw(st.sampled_from(['one', 'one', 'none', 'two', 'ki'])), 'schedule': draw(_sched),
             'stall': draw(st.one_of(st.none(), st.none(), st.fixed_dictionaries({'at': st.integers(1, 60), 'dur': st.sampled_from([0.5, 1.5, 3.0])})))}
 
 
@@ -535,7 +551,7 @@ def hl_case(draw):
     return {'start': [draw(_comp), draw(_comp), draw(st.sampled_from([0.0, 0.0, 0.0, 0.3, 1.0]))], 'dv': draw(st.sampled_from([0.5, 0.2, 1.0])),
             'dh': draw(st.sampled_from([0.5, 1.0, 0.3])),
             'lh': draw(st.sampled_from([0.0, 0.0, 0.1, 0.4])), 'context': draw(st.booleans()), 'steps': steps,
-            'raise_at': draw(st.one_of(st.none(), st.none(), st.integers(0, len(steps)))), 'schedule': draw(_sched)}
+            'raise_at': draw(st.one_of(st.none(), st.none(), st.integers(0, len(steps)))), 'exc_kind': draw(st.sampled_from(['one', 'one', 'none', 'two', 'ki'])), 'schedule': draw(_sched)}
 
 
 def subchecks(tier):
